@@ -4034,6 +4034,36 @@ theorem tro_file_solution (header : List FieldDef) (pre post : List BlockDef) (b
   exact ⟨D, hRD, tro_solution _ pre post b q hk hq k r hr (by rw [hrows]; exact hpre) hpost ks hnd (by rw [hrows]; exact hkeys)
     D hD row (by rw [hrows]; exact hrow)⟩
 
+/-! ## 19. The order of the lines of a matrix block does not matter -/
+
+/-- two lines list no common element -/
+def Apart (a b : Run) : Prop := ∀ i j, cover a i j = Option.none ∨ cover b i j = Option.none
+
+/-- **matrix_line_order**: when no element is listed twice, the element values a block defines (`lastCover`, hence by
+`matrix_entries` / `matrixOf_lower` / `matrixOf_upper` the matrix the parser builds) are the same for every order of its
+lines — row by row, rows last-to-first, column by column, any other -/
+theorem matrix_line_order (ls ls' : List Run) (hperm : ls.Perm ls') (hap : ls.Pairwise Apart) (i j : Nat) :
+    lastCover ls i j = lastCover ls' i j := by
+  induction hperm with
+  | nil => rfl
+  | cons x _ ih =>
+    simp only [lastCover]
+    rw [ih (List.Pairwise.of_cons hap)]
+  | swap x y l =>
+    simp only [lastCover]
+    have hxy : Apart y x := (List.pairwise_cons.mp hap).1 x (by simp)
+    cases lastCover l i j with
+    | some v => rfl
+    | none =>
+      simp only [Option.orElse_none]
+      rcases hxy i j with h | h <;> simp [h, Option.orElse]
+      · cases cover x i j <;> rfl
+      · cases cover y i j <;> rfl
+  | trans h1 _ ih1 ih2 =>
+    rw [ih1 hap]
+    apply ih2
+    exact h1.pairwise hap (fun {a b} hab => fun i j => (hab i j).symm)
+
 end Midgard.Props.C14
 
 #print axioms Midgard.Props.C14.starts_sorted
@@ -4234,3 +4264,4 @@ end Midgard.Props.C14
 #print axioms Midgard.Props.C14.disc_file_site_rows
 #print axioms Midgard.Props.C14.tro_file_description
 #print axioms Midgard.Props.C14.tro_file_solution
+#print axioms Midgard.Props.C14.matrix_line_order
